@@ -562,3 +562,102 @@ def per_point(case, ctx):
         check_lookup(spec, binned, edge, expected, fn, loads, "series", ctx, node_ids=ids)
         nt = True
     ctx.nontrivial(nt and not gated)
+
+
+# ------------------------------------------------------------------------------------------------
+# sub-check 4: call history on ONE law object - tables follow the law's current parameters
+
+HIST_KP = [1.2, 2.0, 3.5, 10.0]
+HIST_KFACTOR = [0.7, 1.0, 1.3]
+HIST_BINS = [1, 3, 7, 20]
+
+
+@st.composite
+def _history_cases(draw, tier):
+    law = draw(st.sampled_from(["EN", "SB"]))
+    mat = dict(draw(st.sampled_from(REAL_POOL)))
+    kp0 = draw(st.sampled_from(HIST_KP))
+    ncfg = draw(st.integers(1, 2))
+    cfgs = [[draw(st.sampled_from(REAL_MAXF + [1.0])) * mat["Rm"], draw(st.sampled_from(HIST_BINS))] for _ in range(ncfg)]
+    steps = [["build", 0]]
+    for _ in range(draw(st.integers(2, 6))):
+        kind = draw(st.sampled_from(["build", "build", "K_p", "K_p", "K_prime", "K"]))
+        if kind == "build":
+            steps.append(["build", draw(st.integers(0, ncfg - 1))])
+        elif kind == "K_p":
+            steps.append(["K_p", draw(st.sampled_from(HIST_KP))])
+        else:
+            steps.append([kind, mat["K"] * draw(st.sampled_from(HIST_KFACTOR))])
+    if steps[-1][0] != "build":
+        steps.append(["build", draw(st.integers(0, ncfg - 1))])
+    return {"law": law, "mat": mat, "K_p": kp0, "configs": cfgs, "steps": steps}
+
+
+def _all_edge_loads(edge_list):
+    out = []
+    for i, e in enumerate(edge_list):
+        lo = edge_list[i - 1] if i else 0.0
+        out += [e, -0.5 * (lo + e)]
+    return out
+
+
+@subcheck(PROP, "setter_history", strategy=_history_cases, quick=400, thorough=15000,
+          doc="ONE law object: Binned(law, max, n), then K_p / K_prime / K changed through the public setters, then Binned(law, ...) again with the "
+              "same and with other (max, n): every new wrapper equals the table of a FRESH law with the current parameters (exact: same "
+              "deterministic computation), and every earlier wrapper keeps answering with its own tables")
+def setter_history(case, ctx):
+    from pylife.materiallaws.notch_approximation_law import Binned
+    mat = case["mat"]
+    ctx.label("law:" + case["law"])
+    current = {"law": case["law"], "E": mat["E"], "K": mat["K"], "n": mat["n"], "K_p": case["K_p"], "mat": mat["mat"], "Rm": mat["Rm"]}
+    law = make_wrapped(current)
+    built = []            # (binned, spec at build time, answers at build time)
+    seen = {}             # (max, bins) -> parameters at the last build
+    changed_since = False
+    nt = False
+
+    def answers(binned, spec, edge, expected):
+        out = {}
+        for fn in FUNCS:
+            sec = "secondary" in fn
+            out[fn] = check_lookup(spec, binned, edge, expected, fn, _all_edge_loads(edge[sec][0]), "series", ctx)
+        return out
+
+    try:
+        for step in case["steps"]:
+            if step[0] == "build":
+                mx, n = case["configs"][step[1]]
+                spec = dict(current, max=mx, bins=n)
+                binned = _call_quiet(Binned, law, mx, n)
+                _, _, edge, expected, _ = build(spec)          # fresh law with the current parameters (harness side)
+                key = (mx, n)
+                params = (current["K"], current["K_p"])
+                if key in seen and seen[key] != params:
+                    ctx.label("rebuild_same_config_after_setter")
+                    nt = True
+                elif key in seen:
+                    ctx.label("rebuild_same_config_unchanged")
+                elif changed_since:
+                    ctx.label("build_other_config_after_setter")
+                seen[key] = params
+                built.append((binned, spec, edge, expected, answers(binned, spec, edge, expected)))
+            else:
+                setattr(law, step[0], step[1])                 # public setters: K_p, K_prime, K
+                ctx.label("set:" + step[0])
+                current["K_p" if step[0] == "K_p" else "K"] = step[1]
+                changed_since = True
+                got = law.K_p if step[0] == "K_p" else law.K
+                if got != step[1]:
+                    raise Violation("%s: after law.%s = %r the getter returns %r" % (case["law"], step[0], step[1], got), bucket="history:setter")
+        # earlier wrappers keep their own tables
+        for binned, spec, edge, expected, before in built:
+            now = answers(binned, spec, edge, expected)
+            if now != before:
+                raise Violation("%s Binned(max=%r, bins=%d) built with K'=%r K_p=%r answers differently after later setter calls / builds"
+                                % (case["law"], spec["max"], spec["bins"], spec["K"], spec["K_p"]), bucket="history:old_wrapper_changed")
+    except RuntimeError as e:
+        if "converge" not in str(e):
+            raise
+        ctx.tolerate("RuntimeError: solver failed to converge while building a table")
+        return
+    ctx.nontrivial(nt)
